@@ -11,6 +11,7 @@ import (
 	"bytes"
 	"fmt"
 	"io"
+	"math/big"
 	"sort"
 
 	"github.com/consensys/gnark/backend/groth16"
@@ -49,8 +50,8 @@ type adapter struct {
 	step2 func(prev, next contribution) error
 
 	// group arithmetic on compressed encodings
-	g1Mul func(b []byte, k int64) ([]byte, error)
-	g2Mul func(b []byte, k int64) ([]byte, error)
+	g1Mul func(b []byte, k *big.Int) ([]byte, error)
+	g2Mul func(b []byte, k *big.Int) ([]byte, error)
 	g1Inf func() []byte
 	g2Inf func() []byte
 }
